@@ -11,8 +11,18 @@ def replay_logic(rep):
     return False, {"mode": "exhaustive over named logics + generated formulas: nothing found"}
 
 
+def replay_tracking(rep):
+    from native import bounded_more
+    r = bounded_more.tracking_sequences("quick", 0)
+    if r["violations"]:
+        return True, {"mode": "all legal command sequences of length <= 4 on a stub solver", "failure": r["violations"][0]}
+    return False, {"mode": "all legal command sequences of length <= 4: nothing found"}
+
+
 def dispatch(rep):
     kind = rep.get("kind")
+    if kind == "tracking":
+        return replay_tracking(rep)
     if kind == "logic":
         return replay_logic(rep)
     return False, {"mode": "no native replay handler for kind %r" % kind}
